@@ -454,14 +454,19 @@ pub fn drive(args: &Args) -> i32 {
     let n = args.num("n", 40);
     let big = args.num("big", 0); // number of multi-MB layouts
     let huge = args.num("huge", 0); // number of > 6.9 MB layouts (real DIFAT need)
+    // number of sparse > 6.9 MB layouts: small streams, > 13952 sectors of 512 bytes mostly free, the
+    // streams' sectors at the highest ids, i.e. described by FAT sectors listed in a DIFAT sector
+    let sparse = args.num("sparse", 0);
     let mut rng = StdRng::seed_from_u64(args.seed());
     let mut out = std::io::BufWriter::new(std::fs::File::create(args.req("out")).unwrap());
     let mut rep = Report::new();
     let boundary = [0usize, 1, 63, 64, 65, 127, 128, 511, 512, 513, 4031, 4032, 4033, 4095, 4096, 4097, 4607, 4608, 8191, 8192, 8193];
     let mut stats = json!({"v3": 0, "v4": 0, "difat_files": 0, "multi_fat_files": 0, "max_bytes": 0, "streams": 0});
-    for run in 0..(n + big + huge) {
+    for run in 0..(n + big + huge + sparse) {
+        let is_sparse = run >= n + big + huge;
         // the > 6.9 MB layouts use 512-byte sectors: > 109 FAT sectors, i.e. a DIFAT sector is needed
         let v4 = rng.gen_bool(0.5) && run < n + big;
+        let run_kind_huge = run >= n + big && !is_sparse;
         let ssz = if v4 { 4096 } else { 512 };
         let ns = rng.gen_range(1..=5usize);
         let mut names: Vec<String> = Vec::new();
@@ -485,7 +490,7 @@ pub fn drive(args: &Args) -> i32 {
             if i == 0 && run >= n && run < n + big {
                 len = rng.gen_range(1_000_000..3_000_000);
             }
-            if i == 0 && run >= n + big {
+            if i == 0 && run_kind_huge {
                 len = 7_000_000 + rng.gen_range(0..600_000);
             }
             if name == "Workbook" {
@@ -527,9 +532,13 @@ pub fn drive(args: &Args) -> i32 {
         l.free_sectors = [0, 0, 1, 2, 9, 40][rng.gen_range(0..6)];
         l.trailing_pad = [0, 0, 1, 511, 512, 3000][rng.gen_range(0..6)];
         l.fill_seed = rng.gen();
+        if is_sparse {
+            l.extra_fat = 0;
+            l.free_sectors = 109 * 128 + rng.gen_range(1..300);
+        }
         let p = cfb::plan(&paths, &lens, &l);
         let mut ids: Vec<u32> = (0..p.total_sectors as u32).collect();
-        match rng.gen_range(0..5) {
+        match if is_sparse { 1 } else { rng.gen_range(0..5) } {
             0 => {}
             1 => ids.reverse(),
             _ => ids.shuffle(&mut rng),
